@@ -134,16 +134,19 @@ impl Prop for C16 {
         let mut units = corpus_units(
             &Space {
                 k: if thorough { 2 } else { 1 },
-                ctx_limit: if thorough { 99 } else { 3 },
+                ctx_limit: 3,
                 layouts: vec![Layout::L0, Layout::LAll, Layout::LNone, Layout::LTabs],
                 style_editions: if thorough { vec![2015, 2024, 2027] } else { vec![2015, 2024] },
                 cfg_mode: if thorough { CfgMode::Dev1All } else { CfgMode::Dev1Relevant },
-                cfg_ctx_limit: if thorough { 99 } else { 2 },
+                cfg_ctx_limit: if thorough { 3 } else { 2 },
                 l1: thorough,
                 dev_editions: if thorough { vec![] } else { vec![2024] },
             },
             None,
         );
+        if thorough {
+            units.retain(super::thorough_economy);
+        }
         if !thorough {
             // quick: deviated forms under style edition 2024 and the layouts {L0, LALL} only; deviated
             // configurations from the one-line layout only
@@ -247,7 +250,7 @@ impl Prop for C16 {
                             key: format!("{}/degenerate-comment:g{gi}c{ci}/{lname}", p.key()),
                             text,
                             cfg: Cfg::new(2024),
-                            extra: json!({"few_widths": !thorough}),
+                            extra: json!({"few_widths": true}),
                         });
                     }
                 }
@@ -351,7 +354,7 @@ impl Prop for C16 {
         }
         let few = u.extra.get("few_widths").and_then(|v| v.as_bool()).unwrap_or(false);
         if few {
-            // quick tier: comment handling does no width arithmetic of its own; three widths
+            // comment handling does no width arithmetic of its own: three widths
             for w in [20usize, 50, 100] {
                 let out = crate::fmt::format(&u.text, &u.cfg, w);
                 if w == 20 {
